@@ -98,6 +98,8 @@ struct ReqLedger {
     sent_at: u64,
     to: u64,
     on_wire: bool,
+    /// when a datagram carrying the request was last put on the wire (ledger clock, ms)
+    last_emit: Option<u64>,
     /// the `total` announced by the first packet of a multi-packet NODES answer
     expected: Option<u64>,
 }
@@ -151,6 +153,8 @@ pub struct HandlerRunner {
     /// the wire length at that moment
     old_keys_mark: usize,
     old_wire_mark: usize,
+    /// ledger clock at the beginning of the stretch of time whose effects are being observed
+    step_start_ms: u64,
     /// real-clock instants (the session cache reads the real clock): when a key first appeared, and when
     /// a node last sealed something for / was delivered something authentic from a peer address
     key_born: HashMap<[u8; 16], std::time::Instant>,
@@ -207,6 +211,7 @@ impl Default for HandlerRunner {
             ttl_ms: 86_400_000,
             old_keys_mark: 0,
             old_wire_mark: 0,
+            step_start_ms: 0,
             key_born: HashMap::new(),
             entry_use: HashMap::new(),
             entry_lo: HashMap::new(),
@@ -580,7 +585,9 @@ impl HandlerRunner {
             .reqs
             .iter()
             .filter(|(_, l)| !l.done && l.failures == 0)
-            .map(|((n, r), l)| (*n, *r, l.sent_at, l.to))
+            // (a request's timer is armed afresh, for a full period, whenever a datagram carrying it goes
+            // out - first transmission, handshake, re-keying, retransmission: what counts is when it last did)
+            .map(|((n, r), l)| (*n, *r, l.last_emit.unwrap_or(l.sent_at).max(l.sent_at), l.to))
             .chain(self.ledger.internal.iter().filter(|(_, v)| !v.2).map(|((n, r), v)| (*n, *r, v.0, v.1)))
             .collect();
         loop {
@@ -716,6 +723,7 @@ impl HandlerRunner {
                         if self.ledger.reqs.contains_key(&(idx, rid)) && now < oldest + timeout {
                             out.push(format!("!MON C04 premature-timeout node={} rid={} after_ms={}", idx, rid, now - oldest));
                         }
+
                     }
                 }
                 HandlerOut::UnverifiableEnr { enr, socket, node_id } => {
@@ -834,8 +842,11 @@ impl HandlerRunner {
                     if let Some(pt) = hf::aead_decrypt(&k, p.nonce, &p.message, &aad) {
                         if let Ok(Message::Request(rq)) = Message::decode(&pt) {
                             let rn = self.name_rid(rq.id.as_bytes(), from);
+                            // (it went out somewhere in the stretch being observed: not before its beginning)
+                            let now = self.step_start_ms;
                             if let Some(l) = self.ledger.reqs.get_mut(&(from, rn)) {
                                 l.on_wire = true;
+                                l.last_emit = Some(now);
                             }
                             if matches!(p.kind, PacketKind::Handshake { .. }) {
                                 let set = self.ledger.hs_for_req.entry((from, rn)).or_default();
@@ -1188,6 +1199,7 @@ impl HandlerRunner {
     fn finish_phases(&mut self, ni: Option<usize>, ev: Option<String>, dts: &[u64], out: &mut Vec<String>, stats: &mut Stats) {
         let mut ops = Vec::new();
         let mut replies = Vec::new();
+        self.step_start_ms = self.now_ms;
         if let (Some(ni), Some(ev)) = (ni, ev) {
             self.settle();
             ops.push(format!("hev {} {}", self.nodes[ni].idx, ev));
@@ -1203,6 +1215,7 @@ impl HandlerRunner {
                 continue;
             }
             // one millisecond at a time: every timer fires at its own deadline, as in real time
+            self.step_start_ms = self.now_ms;
             let rt = self.rt.as_ref().unwrap();
             rt.block_on(async {
                 for _ in 0..dt {
@@ -1519,6 +1532,23 @@ impl HandlerRunner {
                                                     self.cur_wru_finished = true;
                                                 }
                                             }
+                                            // the request has since been sealed again (for a new session) under a
+                                            // fresh nonce: no request is in flight with the echoed one any more
+                                            let tag = format!("|req/{}/", r);
+                                            let mine: Vec<(Vec<u8>, NodeId)> = self.wire.iter().filter(|w| w.from_idx == tidx).map(|w| (w.bytes.clone(), w.dst_id)).collect();
+                                            for (b2, did) in mine.iter().rev() {
+                                                let di = self.id_idx_ro(did);
+                                                let Some(t3) = self.describe(b2, di, tidx, false) else { continue };
+                                                if t3.contains(&tag) {
+                                                    if let Ok((q, _)) = packet_decode(did, ProtocolIdentity::default(), b2) {
+                                                        if q.nonce != p.nonce {
+                                                            self.cur_wru_finished = true;
+                                                            stats.bump("h.whoareyou-echoing-a-superseded-nonce");
+                                                        }
+                                                    }
+                                                    break;
+                                                }
+                                            }
                                         }
                                     }
                                 }
@@ -1736,6 +1766,9 @@ impl HandlerRunner {
                 // `r`: the latest datagram emitted by DST (an in-flight request of DST, usually)
                 let k = if args.get(1) == Some(&"r") {
                     self.wire.iter().rposition(|d| d.from_idx == get(0)).unwrap_or(usize::MAX)
+                } else if let Some(nth) = args.get(1).and_then(|a| a.strip_prefix('r')).and_then(|a| a.parse::<usize>().ok()) {
+                    // `rN`: the N-th latest datagram emitted by DST (`r1` = `r`)
+                    self.wire.iter().enumerate().filter(|(_, d)| d.from_idx == get(0)).map(|(i, _)| i).rev().nth(nth.max(1) - 1).unwrap_or(usize::MAX)
                 } else if args.get(1) == Some(&"h") {
                     // `h`: the latest *handshake* emitted by DST
                     self.wire.iter().rposition(|d| d.from_idx == get(0) && packet_decode(&d.dst_id, ProtocolIdentity::default(), &d.bytes)
@@ -1818,6 +1851,36 @@ pub fn gen_case(rng: &mut Rng, tier: &str, profile: &str, stats: &mut Stats) -> 
     let dual_redirect = (profile == "C02" || profile == "C01" || profile == "C03") && rng.chance(1, 6);
     // every record advertises another port than the one its node really uses (as behind a NAT)
     let nat_replay = !dual_redirect && (profile == "C01" || profile == "C03") && rng.chance(1, 6);
+    if profile == "C03" && !dual_redirect && !nat_replay && rng.chance(1, 10) {
+        // directed case: two requests in flight on a session, the peer challenges the first (it lost its
+        // keys); the second is sealed again for the new session.  A challenge that echoes the nonce the
+        // second one had before answers no request in flight
+        stats.bump("gen.cases.directed-whoareyou-for-superseded-nonce");
+        let x = rng.range(1, n);
+        let y = if x == 1 { 2 } else { 1 };
+        ops.push(format!("hworld {} {} {} 1000 86400000", n, retries, timeout));
+        ops.push(format!("hreq {} {} enr 1 1", x, y));
+        for _ in 0..2 { ops.push("hdel next".into()); }
+        ops.push(format!("hwru {} next known", y));
+        for _ in 0..3 { ops.push("hdel next".into()); }
+        ops.push(format!("hresp {} next auto", y));
+        ops.push("hdel next".into());
+        ops.push(format!("hreq {} {} enr 2 {}", x, y, rng.range(1, 4)));
+        ops.push(format!("hreq {} {} enr 3 {}", x, y, rng.range(1, 4)));
+        if rng.chance(1, 2) { for _ in 0..2 { ops.push("hdel next".into()); } } else { for _ in 0..2 { ops.push("hdel skip".into()); } }
+        ops.push(format!("hcraft whoareyou {} r2 {}", x, rng.below(2)));
+        ops.push("hdel last".into());
+        ops.push(format!("hcraft whoareyou {} r3 {}", x, rng.below(2)));
+        ops.push("hdel last".into());
+        if rng.chance(1, 2) {
+            // (and the one of the first request, now answered by a handshake, once more)
+            ops.push(format!("hcraft whoareyou {} r4 0", x));
+            ops.push("hdel last".into());
+        }
+        for _ in 0..rng.range(0, 6) { ops.push("hdel next".into()); }
+        ops.push("hquiet".into());
+        return ops;
+    }
     if nat_replay {
         // directed case: the handshake of such a node is accepted (signature good, record does not
         // verify against the observed socket) and is then presented again, and again
